@@ -184,6 +184,8 @@ func c18Exec(plan *Plan, st *Stats) *Violation {
 	bubble := c18NeedsBubble(cp)
 	var viol *Violation
 	body := func() {
+		trackActive, activeHost, foreignCall = true, nil, ""
+		defer func() { trackActive, activeHost = false, nil }()
 		nr := len(cp.Runners)
 		solo := make([]string, nr)
 		for r := range cp.Runners {
@@ -268,6 +270,9 @@ func c18Exec(plan *Plan, st *Stats) *Violation {
 			}
 			applyTraced(dyn[r], i, &cp.Runners[r].Ops[i], &traces[r])
 			cur = saved
+			if foreignCall != "" && viol == nil {
+				viol = &Violation{Clause: "C18.foreign-callback", OpIndex: r, Observed: foreignCall, Note: fmt.Sprintf("while runner %d executed op %d", r, i)}
+			}
 			// what the OTHER runners handed to the host earlier is still what it was
 			for o := range dyn {
 				if o != r && dyn[o] != nil && viol == nil {
